@@ -24,7 +24,7 @@ ASSUMPTIONS = [
     "crash-freedom over all argv/stdin byte strings (pure parser inputs) is sampled only incidentally; that part of C15 is not claimed",
 ]
 TIERS = {
-    "quick": {"cases": 25000, "flavours": ("asan",), "cap_s": 600},
+    "quick": {"cases": 40000, "flavours": ("asan",), "cap_s": 600},
     "thorough": {"cases": 1500000, "flavours": ("asan", "plain"), "cap_s": 4 * 3600},
 }
 SHRINK_LISTS = ["sched", "faults", "stack", "argv"]
